@@ -36,7 +36,7 @@ func (c17) Cases(tier string, seed int64, kf *KnownFindings) []Case {
 	gs := []int{1, 2, 4, 16, 64}
 	ops, hist := 600, 20
 	if tier == "thorough" {
-		ops, hist = 40000, 400
+		ops, hist = 150000, 1500
 	}
 	i := 0
 	for ctor := 0; ctor < 3; ctor++ {
@@ -63,6 +63,9 @@ func (c17) Cases(tier string, seed int64, kf *KnownFindings) []Case {
 				}
 			}
 			add(Case{Kind: "block", N: size, K: ctor})
+			if ctor == size%3 {
+				add(Case{Kind: "wrap", N: size, K: ctor, Count: 70000})
+			}
 		}
 		add(Case{Kind: "fresh", K: ctor})
 	}
@@ -435,6 +438,47 @@ func (c17) Run(c Case, env *Env) Result {
 		if env.Race {
 			res.Count("ops_under_race_detector", int64(len(m.events)))
 		}
+	case "wrap":
+		// a long sequential life: tens of thousands of accepted Returns with several objects idle
+		// (ring counters, generation numbers and the like wrap around only after that many)
+		p := newPool(c.K, c.N, tm, nm)
+		m := &poolMonitor{}
+		k := c.N
+		if k > 3 {
+			k = 3
+		}
+		if k < 1 {
+			k = 1
+		}
+		for r := 0; r < c.Count; r++ {
+			var held []interface{}
+			for i := 0; i < k; i++ {
+				o, _ := m.get(p, 0)
+				held = append(held, o)
+			}
+			for i := 0; i < len(held); i++ {
+				for q := i + 1; q < len(held); q++ {
+					if objID(held[i]) == objID(held[q]) && m.dbl == 0 {
+						viol("double-hand-out", fmt.Sprintf("round %d: two consecutive Gets returned the same object while the first was still held (pool size %d)", r, c.N))
+						r = c.Count
+					}
+				}
+			}
+			for _, o := range held {
+				m.ret(p, 0, o)
+			}
+			if r%4096 == 0 {
+				m.mu.Lock()
+				m.events = m.events[:0] // keep the log bounded; the ownership table stays exact
+				m.mu.Unlock()
+			}
+		}
+		if m.dbl > 0 {
+			viol("double-hand-out", fmt.Sprintf("%d Get calls returned an object that the ownership table still marked as held (after tens of thousands of Returns)", m.dbl))
+		}
+		res.Evals += int64(c.Count) * int64(2*k)
+		res.NT = append(res.NT, Hash64(fmt.Sprint(feats)))
+		res.Count("sequential_pool_ops", int64(c.Count)*int64(2*k))
 	case "lin":
 		c17lin(c, env, &res, feats, tm, nm)
 	case "block":
